@@ -74,6 +74,7 @@ type Knobs struct {
 	PSoftSibling    int  // a soft group leaf gets a sibling whose constructor feeds that group (C11)
 	PReencode       int  // C15: probability that a function gets an alternative equivalent encoding
 	PReenter        int  // C02: probability that a constructor body calls back into the container
+	PZeroRes        int  // a single result / group member is returned as the zero value
 	PDeclIn         int  // a function gets a declared ignore-unexported parameter object (unexported fields between the exported ones)
 
 	// Case-level switches
@@ -96,7 +97,7 @@ func DefaultKnobs() Knobs {
 		PFault: 0, PPanic: 30, PDecoSelf: 75, PDecoGroup: 25, PDecoMulti: 20, PDecoExtra: 30,
 		PInvokeAll: 96, PInfo: 0, PCallback: 0, PDefer: 15, PRecover: 30, PHole: 40, PLate: 70, PCycleKeep: 5,
 		NoFaults: true, AvoidDecoCycle: true, PreferAvailable: true,
-		PDeclIn: 6,
+		PDeclIn: 6, PZeroRes: 4,
 	}
 }
 
@@ -439,6 +440,7 @@ func (g *gen) nestParams(fields []Param, lbl string, depth int) Param {
 }
 
 type rleaf struct {
+	zero    bool
 	key     MKey
 	impl    string
 	flatten bool
@@ -448,7 +450,7 @@ type rleaf struct {
 }
 
 func (l rleaf) result() Result {
-	return Result{T: l.key.T, Impl: l.impl, Name: l.key.Name, Group: l.key.Group, Flatten: l.flatten, N: l.n, Nil: l.nilsl, Slice: l.slice}
+	return Result{T: l.key.T, Impl: l.impl, Name: l.key.Name, Group: l.key.Group, Flatten: l.flatten, N: l.n, Nil: l.nilsl, Slice: l.slice, Zero: l.zero && !l.flatten && !l.slice}
 }
 
 func (g *gen) encodeResults(leaves []rleaf, forceObj bool) []Result {
@@ -605,6 +607,7 @@ func (g *gen) genProvide(s int) Op {
 			}
 			usedHere[l.key] = true
 		}
+		l.zero = !l.flatten && g.pct(g.k.PZeroRes, lbl+"zero")
 		rl = append(rl, l)
 	}
 	if useAs {
@@ -850,6 +853,7 @@ func (g *gen) genDecorate(s int) (Op, bool) {
 			if isIface(k.T) {
 				l.impl = g.pickStr(Impls[k.T], lbl+"impl")
 			}
+			l.zero = g.pct(g.k.PZeroRes, lbl+"zero")
 			rl = append(rl, l)
 			if g.pct(g.k.PDecoSelf, lbl+"self") {
 				pl = append(pl, pleaf{key: k})
